@@ -94,10 +94,14 @@ where
                 Poll::Ready(Some(sock)) => match sock {
                     Socket::Stream(st) => {
                         stream.as_mut().insert(*next_stream_id, st);
+                        #[cfg(selium_verif)]
+                        crate::verif::emit("pubsub_adopt_stream", &next_stream_id.to_string());
                         *next_stream_id += 1;
                     }
                     Socket::Sink(si) => {
                         sink.as_mut().insert(*next_sink_id, si);
+                        #[cfg(selium_verif)]
+                        crate::verif::emit("pubsub_adopt_sink", &next_sink_id.to_string());
                         *next_sink_id += 1;
                     }
                 },
